@@ -12,41 +12,41 @@ CLAIMED = {
          "For every codec type, key and list shape the solver shows decoded == original for every canonical value (all integer/float patterns, all text contents and lengths up to the field width, prefixed text up to P bytes); bounded by list lengths and P as stated in the evidence.", "DESIGN.md §6 C01"),
  "C02": ("translation_validation", "translation validation of each generated codec against a reference interpreter of the pinned schema (SMT, per region)",
          "Each message type's real Encode is shown byte-for-byte equal to the schema interpreter's rendering on the wide domain (incl. over-long text), the real Decode of reference bytes returns the value, and for fixed layouts the real Decode of arbitrary bytes equals the reference decoding; one program per (type,key,shape).", "DESIGN.md §6 C02"),
- "C03": ("model_checking", "symbolic execution of every BE/LE primitive instantiation and of every message Encode; integer regions compared with the declared byte order by z3",
+ "C03": ("model_checking", "symbolic execution of every BE/LE primitive instantiation and of every message Encode; integer regions compared with the declared byte order by z3; basic-type lists of 64..4097 elements (bulk-path thresholds)",
          "All 700+ primitive instantiations (prefix x element types) and all integer regions of all messages are rendered in the declared byte order for every value, within the list-length bounds.", "DESIGN.md §6 C03"),
 
- "C04": ("model_checking", "symbolic execution of the real frame Encode with symbolic prior buffer content and stale fields; z3 decides length-bytes == body byte count",
+ "C04": ("model_checking", "symbolic execution of the real frame Encode with symbolic prior buffer content and stale fields; z3 decides length-bytes == body byte count; stale bytes.Buffer views on the patch path are candidates replayed with inflated messages",
          "For the four frames with a computed length, every registered body key (and an absent body), every body value in the wide domain, every stale length and every prior buffer content of the stated sizes, the wire length and the object's length equal the number of body bytes appended.", "DESIGN.md §6 C04"),
  "C05": ("model_checking", "symbolic execution of the real frame Encode including the real checksum service call; z3 decides trailer == algorithm(this frame's bytes)",
          "For the three checksummed frames the trailer and the object's checksum equal the reference algorithm over exactly the bytes appended by this Encode (prior bytes excluded, corrected length included) for every body, stale value and prior content within the bounds; CRC-32 is handled as a function of its argument bytes (algorithm itself: C14).", "DESIGN.md §6 C05"),
- "C06": ("model_checking", "three symbolic executions of the real Encode (empty buffer, buffer with symbolic history, re-encode of the mutated object) compared by z3",
+ "C06": ("model_checking", "three symbolic executions of the real Encode (empty buffer, buffer with symbolic history, re-encode of the mutated object) compared by z3; encode / failed encode / encode sequences with a sync.Pool reuse model",
          "One inductive step from an arbitrary prior buffer: prior bytes untouched, appended bytes independent of history and of the object's own encode history, for every type/key/shape and every wide value.", "DESIGN.md §6 C06"),
- "C07": ("model_checking", "symbolic execution of Encode, symbolic tail, Decode; and of two encodes followed by two decodes",
+ "C07": ("model_checking", "symbolic execution of Encode, symbolic tail, Decode; and of two encodes followed by two decodes; decode of checksummed frames with the registry emptied",
          "Decode consumes exactly the message bytes for every canonical value and every tail (symbolic length and content); two streamed messages are recovered in order.", "DESIGN.md §6 C07"),
  "C11": ("model_checking", "symbolic execution of Decode on A[:k] with a symbolic cut point; every feasible path must be an error path",
          "For every type/key/shape, every canonical value and every cut position the decoder returns an error; the success path is shown infeasible by z3.", "DESIGN.md §6 C11"),
 
- "C12": ("model_checking", "concrete execution of the tree's init-built factory tables on all 226 pinned keys plus symbolic execution on a symbolic unregistered key (full 16/32-bit range, texts up to 4 bytes); Encode with absent body per key",
+ "C12": ("model_checking", "concrete execution of the tree's init-built factory tables on all 226 pinned keys plus symbolic execution on a symbolic unregistered key (full 16/32-bit range, texts up to 4 bytes); each unregistered key looked up twice in the state the first look-up left; Encode with absent body per key",
          "Table identity for all 18 tables x 226 keys; every unregistered key value is shown to produce an error by z3 (an extra or mistyped registration yields the key as counterexample); encoder fill-in builds the pinned type and the reference bytes.", "DESIGN.md §6 C12"),
- "C13": ("model_checking", "symbolic execution of the real fixed-text writer/reader per width with symbolic pad byte, side, text and image; z3 decides equality with the pad/cut/strip specification",
+ "C13": ("model_checking", "symbolic execution of the real fixed-text writer/reader per width with symbolic pad byte, side, text and image; z3 decides equality with the pad/cut/strip specification; list readers element by element against the scalar specification",
          "For 20 widths (0..200), all 256 pad bytes, both sides, every text of length 0..N+2 and every N-byte image the writer emits exactly the specified N bytes and the reader strips only the pad run on the pad side; short buffers are errors.", "DESIGN.md §6 C13"),
- "C14": ("model_checking", "cut-point symbolic execution of each Calc loop: init/step/exit lemmas against the catalogue CRC formulation and a ghost byte sum (induction over length), plus whole-stream equivalence for short inputs and purity",
+ "C14": ("model_checking", "cut-point symbolic execution of each Calc loop: init/step/exit lemmas against the catalogue CRC formulation and a ghost byte sum (induction over length), plus whole-stream equivalence for short inputs, purity, and independence from the service's call history (buffer overwritten in place, other buffer)",
          "CRC-16/MODBUS, SSE and SZSE sums: inductive lemmas discharged by z3 give every length up to 2^26; streams up to 3 (8) symbolic bytes equal the independent formulation; Calc does not touch the buffer; CRC-32 is shown to be hash/crc32 over exactly the unread bytes.", "DESIGN.md §6 C14"),
- "C18": ("model_checking", "symbolic execution of every prefixed writer with a fully symbolic text length (up to 2^33) and of list writers at max-1..max+2 elements; message-level Encode driven over each text prefix boundary",
+ "C18": ("model_checking", "symbolic execution of every prefixed writer with a fully symbolic text length (up to 2^33) and of list writers at max-1..max+2 elements; message-level Encode driven over each text prefix boundary; object lists with an element whose own Encode refuses",
          "z3 shows: success implies length <= max(prefix) for all text writers and all message text fields; list writers refuse max+1 and max+2 elements and write a faithful count at max; at the maximum text round-trips.", "DESIGN.md §6 C18"),
 
- "C08": ("model_checking", "symbolic execution of Decode on an arbitrary wire image followed by Encode of the result; z3 compares the re-encoded bytes with the consumed input region by region",
+ "C08": ("model_checking", "symbolic execution of Decode on an arbitrary wire image followed by Encode of the result; z3 compares the re-encoded bytes with the consumed input region by region; also on fully arbitrary byte strings of symbolic length (arbmsg items)",
          "For every type/key/shape every wire image (all bytes symbolic inside the shape: scalars, all W bytes of each fixed text, prefixed text up to P) that Decode accepts is reproduced by Encode, computed frame fields being replaced by their correct values.", "DESIGN.md §6 C08"),
- "C09": ("model_checking", "symbolic execution of every Decode on every prefix of an arbitrary wire image and of every reader primitive on a fully arbitrary byte string; panic side conditions, abort-sized allocations and loop progress decided by z3",
+ "C09": ("model_checking", "symbolic execution of every Decode on every prefix of an arbitrary wire image and of every reader primitive on a fully arbitrary byte string; panic side conditions, abort-sized allocations, loop progress and leaked locks decided by z3; message decoders also on fully arbitrary byte strings, unregistered keys decoded twice",
          "No panic side condition is satisfiable on any explored path, every path returns a message or an error, unregistered discriminators (symbolic) are errors, no reader loop outlives its input, no single allocation request reaches 2^32 bytes.", "DESIGN.md §6 C09"),
- "C10": ("model_checking", "ghost allocation counter of the symbolic executor on arbitrary inputs; z3 decides size <= 64*input+64 per allocation and a linear budget per path",
+ "C10": ("model_checking", "ghost allocation counter of the symbolic executor on arbitrary inputs; z3 decides size <= 64*input+64 per allocation and a linear budget per path; message decoders on fully arbitrary byte strings; list readers on 1030+ genuine elements behind a larger claimed count",
          "Every allocation made by every reader primitive on an arbitrary byte string (arbitrary counts/lengths) and by every message Decode on arbitrary wire images stays within a linear budget of the input size.", "DESIGN.md §6 C10"),
  "C15": ("model_checking", "two symbolic executions of Decode on the same arbitrary image (fresh vs dirty receiver) compared by z3",
          "Error-ness, consumption and every field agree between a fresh and a dirty receiver (non-empty lists, other body type, nested parts holding data) for every type/key/shape and every arbitrary wire image.", "DESIGN.md §6 C15"),
 
- "C16": ("model_checking", "object-identity (points-to) analysis by symbolic execution of Decode/Encode with aliasing views modelled (Bytes/Next/NewBuffer/unsafe.*), plus havoc of the other side's memory",
+ "C16": ("model_checking", "object-identity (points-to) analysis by symbolic execution of Decode/Encode with aliasing views modelled (Bytes/Next/NewBuffer/unsafe.*), plus havoc of the other side's memory; length-prefixed texts of 300..70000 bytes (zero-copy thresholds)",
          "On every explored path no string/slice reachable from a decoded message shares an object with the buffer and the message is unchanged when the buffer bytes are havocked; symmetric for Encode. The solver's role here is path feasibility; the aliasing verdict is structural (object identities of the executor).", "DESIGN.md §6 C16"),
- "C17": ("model_checking", "symbolic execution of Encode on zero/constructor/wide/mismatching/absent-body/absent-part values; z3 decides the panic side conditions",
+ "C17": ("model_checking", "symbolic execution of Encode on zero/constructor/wide/mismatching/absent-body/absent-part values; z3 decides the panic side conditions; also into a partly drained buffer with symbolic spare capacity",
          "No nil dereference, failed type assertion, index or slice bound violation is satisfiable on any path of any type's Encode for the listed value classes (all 226 keys for absent bodies, symbolic unregistered keys).", "DESIGN.md §6 C17"),
  "C19": ("model_checking", "symbolic execution of the real Registry/Get/Remove/Clear from several pre-states against an atomic-map specification, lock-discipline (lockset) check on every path",
          "Sequential behaviour equals an atomic map for every registered, unknown and symbolic name; every shared access is inside the single critical section of its operation with the right lock mode, which gives atomicity by reduction and race freedom for any number of goroutines (meta-argument stated in the evidence).", "DESIGN.md §6 C19"),
